@@ -152,10 +152,14 @@ class Stats:
         self.harness_errors = []
         self.samples = []
         self.timeouts = 0
+        self.records = {}          # idx -> per-run record (only with VERIF_RECORD=1: determinism self-test)
 
     def add_run(self, idx, seed, spec, res, check):
         self.evaluations += 1
         self.steps += int(res.get('steps', 0))
+        if os.environ.get('VERIF_RECORD'):
+            self.records[idx] = [res.get('digest'), res.get('class'), res.get('steps'),
+                                 digest_of(res.get('counters')), digest_of(res.get('sample'))]
         for k, v in (res.get('counters') or {}).items():
             self.counters[k] += v
         d = res.get('digest') or digest_of(spec)
@@ -186,9 +190,11 @@ class Stats:
             if len(self.samples) < 6:
                 self.samples.append(s)
         self.timeouts += o.timeouts
+        self.records.update(o.records)
 
 
 _CHECK = None   # set in the pristine main process before the pool forks
+_STOP = None    # shared flag: a violation was found, remaining runs are skipped
 
 
 def _work_chunk(args):
@@ -197,6 +203,8 @@ def _work_chunk(args):
     st = Stats()
     for idx in idxs:
         if stop_at and time.time() > stop_at:
+            break
+        if _STOP is not None and _STOP.value >= 3:
             break
         seed = derive_seed(master, check.ID, idx)
         try:
@@ -218,14 +226,18 @@ def _work_chunk(args):
             st.harness_errors.append('idx=%d seed=%d: %s' % (idx, seed, res))
             continue
         st.add_run(idx, seed, spec, res, check)
+        if res.get('class') and _STOP is not None:
+            with _STOP.get_lock():
+                _STOP.value += 1
     return st
 
 
 def run_batch(check, tier, master, n_runs, budget_s, jobs, start_idx=0):
     """Drive n_runs seeded runs over a fork pool. The caller has already run
     check.setup() in this process, which must stay pristine (never print)."""
-    global _CHECK
+    global _CHECK, _STOP
     _CHECK = check
+    _STOP = multiprocessing.get_context('fork').Value('i', 0)
     t0 = time.time()
     stop_at = t0 + budget_s if budget_s else None
     chunk = max(1, min(check.CHUNK, n_runs // (jobs * 4) or 1))
